@@ -1271,7 +1271,7 @@ func rdataNameCompletion(r *Rng, mult int) {
 					set(origin) // written as @
 					rel = append(rel, "@")
 				} else {
-					lab := "rel" + strconv.Itoa(n) + []string{"", ".deep"}[n%2]
+					lab := "rel" + strconv.Itoa(n) + []string{"", ".deep", "\\.", ".e\\.x\\."}[(n+k)%4] // also labels that end in an escaped dot
 					set(lab + "." + origin)
 					rel = append(rel, lab)
 				}
